@@ -10,6 +10,7 @@ import (
 	"github.com/bilibili/gengine/verifrt/vsched"
 	"github.com/bilibili/gengine/verifrt/vsync"
 
+	"verif/harness/gx"
 	"verif/harness/hx"
 )
 
@@ -411,9 +412,29 @@ func selfTest(c *hx.Ctx) {
 	if keys(o) != "1 2 []" || len(v) != 0 {
 		fail("two callers of Once.Do: outcomes %q verdicts %q, want x=1 y=2 (the second caller waits for the first)", keys(o), keys(v))
 	}
+	// 9. DeepClone keeps slices that share a backing array shared (either field order)
+	{
+		type two struct {
+			A, B []int
+			P    *two
+		}
+		back := []int{1, 2, 3, 4}
+		for _, tpl := range []*two{{A: back[:2], B: back[2:]}, {A: back[2:], B: back[:2]}} {
+			tpl.P = tpl
+			cp := gx.DeepClone(tpl).(*two)
+			lo, hi := cp.A, cp.B
+			if len(tpl.A) == 2 && cap(tpl.A) == 2 {
+				lo, hi = cp.B, cp.A
+			}
+			grown := append(lo, 9) // lands in the other slice's first element when the array is shared
+			if cp.P != cp || hi[0] != 9 || back[2] != 3 || len(grown) != 3 || fmt.Sprint(cp.A, cp.B) == "" {
+				fail("DeepClone of two windows of one array: copy %v %v (template array %v), want the windows to share the copied array and the template untouched", cp.A, cp.B, back)
+			}
+		}
+	}
 	c.Res.Execs += ep + en
-	c.Res.AddExtra("cases", 26)
-	c.Res.Sample("26 known-answer scenarios: RWMutex writer preference (recursive read lock deadlock / plain), slice-element race / no race, condition variable (flag under lock / lost signal), Once, channel ping / no sender / full buffer / select / lost wake-up, lost update (bounds 0/1, delay 1), locked update, AB-BA deadlock, WaitGroup negative / stuck, fair spin loop, endless spin loop, race monitor positive / negative, pruning vs no pruning")
+	c.Res.AddExtra("cases", 27)
+	c.Res.Sample("27 known-answer scenarios: DeepClone backing-array sharing, RWMutex writer preference (recursive read lock deadlock / plain), slice-element race / no race, condition variable (flag under lock / lost signal), Once, channel ping / no sender / full buffer / select / lost wake-up, lost update (bounds 0/1, delay 1), locked update, AB-BA deadlock, WaitGroup negative / stuck, fair spin loop, endless spin loop, race monitor positive / negative, pruning vs no pruning")
 }
 
 func init() {
